@@ -222,6 +222,10 @@ class Helpers(Harness):
             bad.append('a request that fits the limit in force is refused')
         if not o['over_refused']:
             bad.append('a request one byte over the limit in force is granted')
+        if not o.get('fits_freed', True):
+            bad.append('with the live block freed, a request of exactly the limit in force is refused')
+        if not o.get('over_refused_freed', True):
+            bad.append('with the live block freed, a request one byte over the limit in force is granted')
         return bool(bad), '(used=%d, peak=%d, limit=%d); %s(%s) -> %s: %s' % (u, m, L, w, nl if w == 'set_limit' else '', o, '; '.join(bad) or 'as specified')
 
 
